@@ -47,6 +47,25 @@ def judge_erroneous(text):
         i = next((k for k, (a, b) in enumerate(zip(out, text)) if a != b), min(len(out), len(text)))
         kind = "leading" if text[: len(text) - len(text.lstrip())] != out[: len(out) - len(out.lstrip())] else "trailing" if out.rstrip() == text.rstrip() else "inner"
         fails.append((f"not-passed-through:{kind}", {"at": i, "in": text[max(0, i - 20) : i + 20], "out": out[max(0, i - 20) : i + 20]}))
+    # the same text read from a file / parsed with a source path must be passed through as well
+    if "\r" not in text and "\x00" not in text:
+        import os
+        import tempfile
+
+        fd, fpath = tempfile.mkstemp(prefix="c07-", suffix=".nix")
+        try:
+            with os.fdopen(fd, "w", encoding="utf-8", newline="") as fh:
+                fh.write(text)
+            for how, build in (("parse_file", lambda: nima.parse_file(fpath)), ("source_path", lambda: nima.parse(text, source_path=fpath))):
+                try:
+                    got = build().rebuild()
+                except Exception as e:  # noqa: BLE001
+                    fails.append((f"{how}-raises:" + _exc_sig(e), {"msg": str(e)[:100]}))
+                    continue
+                if got != text:
+                    fails.append((f"not-passed-through:{how}", {"in": text[:60], "out": got[:60]}))
+        finally:
+            os.unlink(fpath)
     code, so, se, exc = nima.cli(["test"], text)
     if exc is not None or code != 1 or so != "Fail\n":
         fails.append(("cli-test-not-fail", {"code": code, "stdout": so[:50], "exc": repr(exc)}))
